@@ -404,3 +404,35 @@ _add(Prop(
           "lift yield exactly min-length frames and then None for good; take(n) yields exactly n; interleaved output yields "
           "frames x channels samples in channel order.",
 ))
+
+
+_add(Prop(
+    "C12", "c12_fork", "c12",
+    functions=["Signal::fork, Fork::{by_ref, by_rc}", "BranchRefA/BranchRefB/BranchRcA/BranchRcB::{next, pending_frames}",
+               "dasp_ring_buffer::Bounded::{push, pop, len} underneath"],
+    bounds="ALL interleavings (symbolic schedule) of 8 pulls (12 in the thorough tier) on the two by-reference branches from "
+           "the initial state whose lead never exceeds the capacity, capacities 1, 2, 3; re-split after 3 pulls (capacity 2); "
+           "reference-counted branches: all interleavings of 6 pulls, capacity 2",
+    outside="schedules longer than the bound (the reachable state space - pending flag x queue length <= capacity - is "
+            "visited within 8 steps for capacity <= 3: an observation from the covers, not a proof); capacities > 3",
+    assumptions=["schedules are restricted by the documented precondition: neither branch gets ahead of the other by more "
+                 "than the ring buffer's capacity"],
+    design_ref="DESIGN.md §4 C12",
+    claim="With the pull schedule a vector of symbolic booleans the solver shows for every admissible interleaving within "
+          "the bound that each branch receives exactly frame number (its own pull count), that pending_frames equals the lag "
+          "after every step, and that the source is pulled exactly max(countA, countB) times.",
+))
+
+_add(Prop(
+    "C14", "c14_buffered", "c14",
+    functions=["Signal::buffered, Buffered::{next, next_frames, is_exhausted, into_parts}, BufferedFrames::next",
+               "dasp_ring_buffer::Bounded::{from_raw_parts, push, pop, len, max_len} underneath"],
+    bounds="capacity 1, 2, 3 with ANY valid (start, len, contents) pre-fill; source of symbolic length <= 4 and contents; 6 "
+           "single next() calls, or 3 symbolic steps each either next() or a batch partially/fully drained; drain to exhaustion",
+    outside="capacities > 3, sources longer than 4 frames, scripts longer than the bound",
+    design_ref="DESIGN.md §4 C14",
+    claim="For every pre-fill state, source and script within the bound the solver shows the output stream is the pre-filled "
+          "frames oldest-first followed by the source in order, that the source is pulled exactly one buffer at a time and "
+          "only when the buffer ran empty, that is_exhausted holds exactly when the buffer is empty and the source exhausted, "
+          "and that draining yields len + ceil(S/CAP)*CAP frames, i.e. fewer than one buffer of padding.",
+))
